@@ -1544,7 +1544,12 @@ class Tensor:
         #
         # TBD: Create shape
         #
-        shape = None
+        #
+        # The shape follows the ranks (when it is known)
+        #
+        shape = copy.deepcopy(self.getShape(authoritative=True))
+        if shape:
+            shape[depth], shape[depth + 1] = shape[depth + 1], shape[depth]
 
         # Only call Fiber.swapRanks if there are actually payloads to swap
         if not all(fiber.isEmpty() for fiber in self.ranks[depth].fibers):
